@@ -111,6 +111,7 @@ func runSrvScenario(w *World, p *PlanSrv, monitor func(s *SUT)) (*History, *SUT,
 		peers = append(peers, peer)
 		w.Armed = true
 	}
+	sut.Peers = peers
 	for i, peer := range peers {
 		if peer == nil {
 			continue
